@@ -30,7 +30,7 @@ def write_db(variant, rows):
                 % (", options BLOB" if with_options else "", ", vendor_class BLOB" if variant == "newer" else ""))
     if variant != "v0-unversioned":
         con.execute("CREATE TABLE schema_version (key TEXT NOT NULL, version INTEGER NOT NULL, PRIMARY KEY (key))")
-        con.execute("INSERT INTO schema_version VALUES ('pool', ?)", ({"v0-versioned": 0, "v1": 1, "newer": 3}[variant],))
+        con.execute("INSERT INTO schema_version VALUES ('pool', ?)", ({"v0-versioned": 0, "v1": 1, "newer": 99}[variant],))
     for (a, ch, cid, st, ex) in rows:
         con.execute("INSERT INTO leases (address, chaddr, clientid, start, expiry) VALUES (?, ?, ?, ?, ?)", (a, ch, cid, st, ex))
     con.commit()
@@ -92,7 +92,7 @@ def main():
                 leg.eval()
                 leg.cls("%s|served|%s" % (variant, "yes" if off else "no"))
                 if off:
-                    leg.violation("C18/schema-e2e/newer-version-served", "a database whose schema_version says pool = 3 is being served from (offer %s)" % off["yiaddr"],
+                    leg.violation("C18/schema-e2e/newer-version-served", "a database whose schema_version says pool = 99 is being served from (offer %s)" % off["yiaddr"],
                                   {"engine": "c18-schema-e2e", "variant": variant})
                 p.stop()
                 leg.eval()
